@@ -65,6 +65,7 @@ func main() {
 	views := fl.Bool("views", false, "with result types and views")
 	nested := fl.Bool("nested-inline", false, "allow nested inline objects")
 	risky := fl.Bool("risky-names", false, "use one attribute name that generated code may collide with")
+	viewsDesign := fl.Bool("views-design", false, "a design of result types with views (C08)")
 	meta := fl.Bool("meta", false, "decorate the design with openapi:* / struct:* metadata (post-pass, C09)")
 	metaBoth := fl.Bool("meta-both-summaries", false, "with -meta: openapi:summary and swagger:summary on the same expressions")
 	designFile := fl.String("design", "", "design JSON")
@@ -75,6 +76,12 @@ func main() {
 	fl.Parse(os.Args[2:])
 	switch os.Args[1] {
 	case "make":
+		if *viewsDesign {
+			d := design.GenerateViews(lp.NewRng(*seed*1000003+uint64(*index)+5), *index)
+			b, _ := json.Marshal(d)
+			fmt.Println(string(b))
+			return
+		}
 		d := design.Generate(lp.NewRng(*seed*1000003+uint64(*index)), design.Opts{Index: *index, Security: *security, Errors: *errs, Views: *views, NestedInline: *nested, Risky: *risky})
 		if *meta || *metaBoth {
 			design.AddMeta(d, lp.NewRng(*seed*7919+uint64(*index)+17), *metaBoth)
@@ -97,6 +104,18 @@ func main() {
 			}
 		}
 		b, _ := json.Marshal(rep)
+		fmt.Println(string(b))
+	case "project":
+		// the real expr.Project of every (result type, view) of the design, as trees
+		raw, err := os.ReadFile(*designFile)
+		if err != nil {
+			fatal(err)
+		}
+		var d design.Design
+		if err := json.Unmarshal(raw, &d); err != nil {
+			fatal(err)
+		}
+		b, _ := json.Marshal(projectAll(&d))
 		fmt.Println(string(b))
 	default:
 		os.Exit(2)
